@@ -17,6 +17,7 @@ import (
 	"os/exec"
 	"reflect"
 	"regexp"
+	"regexp/syntax"
 	"runtime"
 	"strconv"
 	"strings"
@@ -430,6 +431,25 @@ func answer(q string) (string, bool) {
 			return "", false
 		}
 		return fmt.Sprintf("%016x", math.Float64bits(math.Pow(math.Float64frombits(a), math.Float64frombits(b)))), true
+	case "REC":
+		src, err := hex.DecodeString(parts[1])
+		if err != nil {
+			return "", false
+		}
+		if _, err := regexp.Compile(string(src)); err != nil {
+			code := "unknown error"
+			if e, ok := err.(*syntax.Error); ok {
+				code = string(e.Code)
+			}
+			return hex.EncodeToString([]byte(code)), true
+		}
+		return "", true
+	case "QT":
+		src, err := hex.DecodeString(parts[1])
+		if err != nil {
+			return "", false
+		}
+		return hex.EncodeToString([]byte(fmt.Sprintf("%q", string(src)))), true
 	case "UP", "LOW":
 		s, err := hex.DecodeString(parts[1])
 		if err != nil {
